@@ -3,7 +3,7 @@
     (pairwise distinct, no trailing blank: exactly what the naming routine hands out, see
     [export_names_are_pairable]); [combine_stereo names] lists the files written, each with
     the indices of its source samples in CHANNEL order. *)
-From SE Require Import Base Codecs Cue Names NamesProofs PairProofs Transcode TranscodeUnbounded.
+From SE Require Import Base Codecs Cue Names NamesProofs PairProofs NamesMoreProofs Transcode TranscodeUnbounded.
 From Coq Require Import Permutation.
 
 (** The hypotheses below hold of every directory the exporter builds. *)
@@ -85,6 +85,39 @@ Proof.
   - repeat constructor; cbn; intuition discriminate.
   - repeat constructor.
   - vm_compute. intros H. inversion H as [|? ? Hn _]. apply Hn. now left.
+Qed.
+
+(** ...but EVERY such collision involves a merged pair (finding D6 characterised): if two
+    different outputs (different positions in the list of written files) carry the same
+    name, at least one of them has two sources, i.e. is a stereo pair named after its stem
+    (see [pair_shape]).  Two files that each come from ONE sample never share a name. *)
+Theorem output_name_collisions_involve_a_pair :
+  forall names, NoDup names -> Forall no_trail names ->
+  forall p q x s1 s2,
+    p <> q ->
+    nth_error (combine_stereo names) p = Some (x, s1) ->
+    nth_error (combine_stereo names) q = Some (x, s2) ->
+    length s1 = 2%nat \/ length s2 = 2%nat.
+Proof. exact output_collision_lemma. Qed.
+Print Assumptions output_name_collisions_involve_a_pair.
+
+(** Equivalently: the single-source outputs carry pairwise distinct names. *)
+Theorem single_source_output_names_distinct :
+  forall names, NoDup names -> Forall no_trail names ->
+    NoDup (map fst (filter single_source (combine_stereo names))).
+Proof. exact single_outputs_distinct_lemma. Qed.
+Print Assumptions single_source_output_names_distinct.
+
+(** Non-vacuity of the two theorems above: "A L", "A R", "A", "B" -> the files A (pair), A, B:
+    the collision A/A involves the pair at position 0; the single-source names A, B differ. *)
+Example c05_collision_example :
+  let names := [[65;32;76]; [65;32;82]; [65]; [66]] in
+  NoDup names /\ Forall no_trail names
+  /\ combine_stereo names = [([65], [0%nat; 1%nat]); ([65], [2%nat]); ([66], [3%nat])]
+  /\ map fst (filter single_source (combine_stereo names)) = [[65]; [66]].
+Proof.
+  cbv zeta. split; [repeat constructor; cbn; intuition discriminate|].
+  split; [repeat constructor|]. split; vm_compute; reflexivity.
 Qed.
 
 (** Non-vacuity: "B R", "A", "B L", "C-L" -> B = [2;0] (L first although R comes first),
